@@ -711,7 +711,7 @@ package lang
 //@ spec func specPrec(t TokenTag) Precedence = (t == LSquare || t == Dot) ? PrecCall : (t == LParen ? PrecGroup : (t == Bang ? PrecUnary : ((t == PlusPlus || t == MinusMinus) ? PrecPostfix : ((t == Multiply || t == Divide || t == Percent) ? PrecMultiplication : ((t == Plus || t == Minus) ? PrecAddition : ((isCompareTag(t) || t == Is) ? PrecComparison : ((t == AmpAmp || t == PipePipe) ? PrecLogical : ((t == Equal || isCompoundTag(t)) ? PrecAssign : PrecNone))))))))
 //@ spec func prefixOK(r parseRule, t TokenTag) bool = r.prefix == (isLiteralTag(t) ? fn("literal") : ((t == Dollar || t == Ident) ? fn("identifier") : (t == LSquare ? fn("array") : (t == LParen ? fn("group") : ((t == Plus || t == Minus || t == Bang || t == PlusPlus || t == MinusMinus) ? fn("unary") : (t == Divide ? fn("regex") : (t == Match ? fn("match") : (t == LCurly ? fn("object") : nil))))))))
 //@ spec func infixOK(r parseRule, t TokenTag) bool = r.infix == (t == LSquare ? fn("computedMember") : (t == Dot ? fn("member") : (t == LParen ? fn("call") : (t == Equal ? fn("assign") : (t == Is ? fn("is") : ((t == PlusPlus || t == MinusMinus) ? fn("postfix") : ((isCompareTag(t) || t == Plus || t == Minus || t == Multiply || t == Divide || t == Percent || isCompoundTag(t) || t == AmpAmp || t == PipePipe) ? fn("binary") : nil)))))))
-//@ spec func tableOK(m map[TokenTag]parseRule) bool = forall t TokenTag :: (inTable(t) ==> has(m, t) && m[t].prec == specPrec(t) && prefixOK(m[t], t) && infixOK(m[t], t)) && (!inTable(t) ==> !has(m, t))
+//@ spec func opaque tableOK(m map[TokenTag]parseRule) bool = forall t TokenTag :: (inTable(t) ==> has(m, t) && m[t].prec == specPrec(t) && prefixOK(m[t], t) && infixOK(m[t], t)) && (!inTable(t) ==> !has(m, t))
 //@ spec func parserOK(p *Parser) bool = p != nil && p.lexer != nil && lexOK(p.lexer) && p.current != nil && p.rules != nil && tableOK(p.rules) && (p.current.Tag != EOF ==> p.lexer.tokenStart < p.lexer.pos)
 //@ modset parserState = p.current, p.previous, p.didEndStatement, p.inLoop, p.inFunction, p.lexer.pos, p.lexer.tokenStart
 
@@ -788,7 +788,8 @@ package lang
 //@   ensures[C11] break-needs-loop: err == nil && (istype(result0, *StatementBreak) || istype(result0, *StatementContinue)) ==> old(p.inLoop)
 //@   ensures[C11] return-needs-function: err == nil && istype(result0, *StatementReturn) ==> old(p.inFunction)
 //@   assert[C11] loop-header-outside-loop-context: p.inLoop == old(p.inLoop) && p.inFunction == old(p.inFunction) @ Parser.expression
-//@   ensures ok: parserOK(p) && (err == nil ==> p.previous != nil)
+//@   ensures ok: parserOK(p)
+//@   ensures previous: err == nil ==> p.previous != nil
 
 //@ func Parser.loopBody [C01,C07,C11]
 //@   requires parserOK(p) && p.previous != nil
@@ -880,6 +881,7 @@ package lang
 //@   loop 0 invariant ok: parserOK(p) && !p.inLoop && !p.inFunction
 
 //@ func NewParser [C06]
+//@   reveal tableOK
 //@   requires l != nil
 //@   updates nothing
 //@   modifies nothing
@@ -888,6 +890,7 @@ package lang
 
 //@ func literal [C01,C06]
 //@   implements parseRule.prefix
+//@   reveal tableOK
 
 //@ func regex [C01,C06]
 //@   implements parseRule.prefix
